@@ -413,14 +413,25 @@ def handle (req : Json) : Except String Json := do
       let namesOf (c : Comp) : List Gx.Name := c.states ++ c.params ++ c.inters ++ c.derivs
       let subNames := (ld.comps.filter (·.name == comp)).flatMap namesOf
       let restNames := (ld.comps.filter (·.name != comp)).flatMap namesOf
-      let part (names : List Gx.Name) : Json :=
+      let part (names other : List Gx.Name) : Json :=
         let pm := Impl.restrict m (fun x => names.contains x)
+        let om := Impl.restrict m (fun x => other.contains x)
+        let reqNames := Impl.missingVariables om
+        -- hypotheses of `GenValidMissing.genMissing_valid`, evaluated: well-formed part, requested names defined in it
+        let hyps := checkModelWF pm && allDistinct reqNames &&
+          reqNames.all fun r => pm.stateNames.contains r || pm.paramNames.contains r || pm.assignNames.contains r
         Json.mkObj [("states", jstrs pm.stateNames), ("params", jstrs pm.paramNames), ("assigns", jstrs pm.assignNames),
           ("missing", jstrs (Impl.missingVariables pm)),
+          ("req", jstrs reqNames),
+          ("missing_values", optStmts (Impl.genMissing pm π reqNames)),
+          ("missing_hyps", Json.bool hyps),
+          ("missing_valid", Json.bool (match Impl.layout pm π, Impl.genMissing pm π reqNames with
+            | some L, some p => checkMissingValues pm L reqNames p
+            | _, _ => true)),
           ("layout", match Impl.layout pm π with
             | some L => Json.mkObj [("state", jstrs L.state), ("param", jstrs L.param), ("monitor", jstrs L.monitor), ("missing", jstrs L.missing)]
             | none => Json.null)]
-      pure (Json.mkObj [("ok", Json.bool true), ("sub", part subNames), ("rest", part restNames)])
+      pure (Json.mkObj [("ok", Json.bool true), ("sub", part subNames restNames), ("rest", part restNames subNames)])
   | "ctyped" =>
     -- typing verdicts for a translated C function body
     let progJ ← (← req.getObjVal? "prog").getArr?
